@@ -79,6 +79,9 @@ CHECKS = {
    text="Loading arbitrary bytes must give a column or an error; a column that loads must save to bytes that load to the same values.", ref="§5a, §6 C35", note="assumes: panics caught by catch_unwind; comparison of loaded columns by length and canonical bytes (run-length encoded columns can be astronomically long)"),
  "C32": dict(cat="model_checking", tech="TLA+ trace validation (Trace_Interp Serde): serde_json image of AutoSerde = OpSet-derived image of the current state (winners only, text as strings) + a serde Serializer that enforces announced lengths",
    text="Histories with nested maps, lists, text, conflicts and counters serialised on every replica.", ref="§5a"),
+ "C27": dict(cat="model_checking", tech="TLA+ trace validation (TLC, Trace_Seq BulkOK): the image of the target object after update_text / update_object / batch_create_object / splice with nested values / init_root_from_hydrate equals the target value drawn from a value grammar; frame condition; Trace_Interp on the same traces",
+   text="Reconciliation and bulk construction calls on prior states with conflicts, tombstones and nested objects over 2-3 replicas.", ref="§5a",
+   note="assumes as the other trace checks; update_spans and init_from_hydrate are NOT exercised (the span grammar and its normalisation were not modelled); equality with call-by-call construction is observed as equality of the resulting images, not of op ids"),
 }
 
 NA_REASON = "check not built yet in this session (framework under construction; see DESIGN.md §10 build order)"
